@@ -21,15 +21,15 @@ def known_ids():
 #  count monitors: C01 C02 C04 C05 C06 C07 C08 C09 C18(record part)
 # ----------------------------------------------------------------------------------------
 MIX = {
-    'C01': [('random', 4), ('tie', 1), ('quota', 1), ('coalition', 1), ('chain', 1), ('bullet', 2), ('exact', 1)],
-    'C02': [('random', 3), ('chain', 3), ('quota', 1)],
-    'C04': [('quota', 3), ('exact', 3), ('random', 2), ('tie', 1)],
+    'C01': [('random', 4), ('tie', 1), ('quota', 1), ('coalition', 1), ('chain', 1), ('bullet', 2), ('exact', 1), ('sparse', 2), ('bigm', 1)],
+    'C02': [('random', 3), ('chain', 3), ('quota', 1), ('bigm', 2), ('sparse', 1)],
+    'C04': [('quota', 3), ('exact', 3), ('random', 2), ('tie', 1), ('sparse', 1), ('bigm', 1)],
     'C05': [('coalition', 4), ('random', 2)],
-    'C06': [('chain', 3), ('random', 3), ('quota', 1)],
-    'C07': [('tie', 3), ('prior', 2), ('reversal', 1), ('writein', 1), ('random', 2), ('quota', 1), ('bullet', 1), ('coalition', 1)],
+    'C06': [('chain', 3), ('random', 3), ('quota', 1), ('bigm', 1), ('sparse', 1), ('surplustie', 1)],
+    'C07': [('tie', 3), ('prior', 2), ('reversal', 1), ('surplustie', 2), ('writein', 1), ('random', 2), ('quota', 1), ('bullet', 1), ('coalition', 1), ('sparse', 1)],
     'C08': [('random', 4), ('tie', 1), ('quota', 1)],
-    'C09': [('random', 4), ('tie', 1), ('coalition', 1), ('bullet', 2), ('exact', 1)],
-    'C18': [('random', 4), ('tie', 1), ('quota', 1)],
+    'C09': [('random', 4), ('tie', 1), ('coalition', 1), ('bullet', 2), ('exact', 1), ('sparse', 2)],
+    'C18': [('random', 4), ('tie', 1), ('quota', 1), ('sparse', 1), ('writein', 1)],
 }
 RULESET = {
     'C06': drive.GREG,
@@ -510,7 +510,7 @@ def check_c03(tier):
         meta.clear()
 
     for i in range(nprof):
-        shape = pick_shape(rng, [('random', 4), ('tie', 2), ('prior', 2), ('reversal', 2), ('writein', 2), ('quota', 2), ('exact', 2), ('chain', 2), ('coalition', 1), ('bullet', 1)])
+        shape = pick_shape(rng, [('random', 4), ('tie', 2), ('prior', 2), ('reversal', 2), ('surplustie', 2), ('writein', 2), ('quota', 2), ('exact', 2), ('chain', 2), ('coalition', 1), ('bullet', 1), ('sparse', 2), ('bigm', 2)])
         pr = make_profile(rng, shape, 'C01')
         if shape == 'random' and rng.random() < 0.5:
             pr = gen.randprofile(rng, wd=True, und=True, maxc=5, maxlines=7)
